@@ -585,6 +585,30 @@ pub fn run(ctx: &Ctx, sh: &mut Shard) {
                     }
                 }
                 let ccw = r.chance(1, 2);
+                // repeated vertices (incl. a repeated closing vertex, which winding detection has to skip), ring start at
+                // the lexicographically least vertex one time in three (that is where the winding pivot sits)
+                if r.chance(1, 2) {
+                    ms = ms.iter().map(|m| match m {
+                        IG::Polygon(rings) => {
+                            // orient first, so that the repetition stays at the closing end of the ring
+                            let rings = orient_poly(rings, ccw);
+                            let rings: Vec<Vec<IP>> = rings.iter().map(|ring| {
+                                if ring.len() >= 4 && r.chance(1, 3) {
+                                    let mut v = ring[..ring.len() - 1].to_vec();
+                                    let least = (0..v.len()).min_by_key(|&i| v[i]).unwrap();
+                                    v.rotate_left(least);
+                                    let f = v[0];
+                                    v.push(f);
+                                    v
+                                } else {
+                                    ring.clone()
+                                }
+                            }).collect();
+                            add_repeats(&mut r, &IG::Polygon(rings))
+                        }
+                        o => o.clone(),
+                    }).collect();
+                }
                 check_unary(sh, &ms, ccw, &lat, false);
             }
             7 => {
